@@ -23,6 +23,7 @@ and — with the guarded hook — flags, `m_route_dist` and the static-graph fla
 import AdaptaVerif.Lemmas.Reroute
 import AdaptaVerif.Lemmas.RerouteGeom
 import AdaptaVerif.Lemmas.RerouteEstimateModel
+import AdaptaVerif.Lemmas.RerouteScene
 import AdaptaVerif.Lemmas.Sqrt
 import AdaptaVerif.Props.C06
 import Mathlib.Data.Rat.Cast.Order
@@ -173,6 +174,28 @@ theorem skip_sound_route_valid (cid : Nat) (route : List Pt) (lt3 : Lt3) (rpOld 
     rw [← hu, ← hv]
     exact edgeBlocked_false_sound s r (hconv s hs).1 (hconv s hs).2 hb g1 g2 g3
 
+open AdaptaVerif.Lemmas.RerouteScene in
+/-- **new_scene_obstacle_cases** (discharges `hnew` above from the scene model of Model/ActionQueue): every
+    obstacle object the scene holds after `processActions` is either an obstacle of the old scene at which no
+    action of the transaction was aimed — unchanged, same geometry — or the target of an Add or Move action
+    (a removed one is gone). -/
+theorem new_scene_obstacle_cases (sc : AdaptaVerif.Model.ActionQueue.Scene) (acts : List Action)
+    (o : AdaptaVerif.Model.ActionQueue.Obst) (ho : o ∈ (AdaptaVerif.Model.ActionQueue.runPasses sc acts).obsts) :
+    (o ∈ sc.obsts ∧ ∀ a ∈ acts, ¬ Targets a o.id) ∨
+      (∃ a ∈ acts, (a.kind = .add ∨ a.kind = .move) ∧ a.id = o.id) := by
+  by_cases h : ∀ a ∈ acts, ¬ Targets a o.id
+  · exact Or.inl ⟨(runPasses_untouched sc acts o h).mp ho, h⟩
+  · right
+    have : ∃ a ∈ acts, Targets a o.id := by
+      by_contra hn
+      exact h (fun a ha ht => hn ⟨a, ha, ht⟩)
+    obtain ⟨a, ha, hk, hid⟩ := this
+    cases hkk : a.kind
+    · exact ⟨a, ha, Or.inr hkk, hid⟩
+    · exact ⟨a, ha, Or.inl hkk, hid⟩
+    · exact absurd rfl (runPasses_removed sc acts o.id ⟨a, ha, hkk, hid⟩ o ho)
+    · exact absurd hkk hk
+
 -- non-vacuity: the closed scene of `Witness` below satisfies `Covered` and the "not flagged" hypothesis
 example : Covered Witness.rst0.regs 3 Witness.oldRoute :=
   covered_after_routing 3 _ (addConn true 3 {}) (by decide)
@@ -292,6 +315,37 @@ theorem removal_flag_complete_same_side (N : K → K → K) (hN : IsNorm N) (lt3
     exact sideFlags_complete lt3 route s t _ hR e he xp hsp (horacle xp (lt_of_le_of_lt (hmin q q1 q2 q3) hshort))
   · obtain ⟨xp, hsp, hmin⟩ := removal_estimate_min_vertical N hN s t e.1 e.2 hy hx hs
     exact sideFlags_complete lt3 route s t _ hR e he xp hsp (horacle xp (lt_of_le_of_lt (hmin q q1 q2 q3) hshort))
+
+/-- **removal_complete_shorter_path_same_side.** … in the words of the property: if ANY path from `s` to `t`
+    (a polyline `p1 ++ q :: p2`) that is shorter than the current route passes through a point `q` of a side of
+    the removed obstacle whose line has `s` and `t` on the same side, the connector is flagged. -/
+theorem removal_complete_shorter_path_same_side (N : K → K → K) (hN : IsNorm N) (lt3 : Lt3) (poly route : List Pt)
+    (s t : Pt) (hh : route.head? = some s) (hl : route.getLast? = some t) (L : K)
+    (horacle : ∀ xp, D N s xp + D N xp t < L → lt3 s t xp route = some true)
+    (hR : Rectilinear (polyEdges poly)) (e : Pt × Pt) (he : e ∈ polyEdges poly) (q : Pt)
+    (hside : (e.1.y = e.2.y ∧ e.1.x ≠ e.2.x ∧ SameSide (s.y - e.1.y) (t.y - e.1.y) ∧
+                q.y = e.1.y ∧ rmin e.1.x e.2.x ≤ q.x ∧ q.x ≤ rmax e.1.x e.2.x) ∨
+             (e.1.y ≠ e.2.y ∧ e.1.x = e.2.x ∧ SameSide (s.x - e.1.x) (t.x - e.1.x) ∧
+                q.x = e.1.x ∧ rmin e.1.y e.2.y ≤ q.y ∧ q.y ≤ rmax e.1.y e.2.y))
+    (p1 p2 : List Pt) (hs : (p1 ++ [q]).head? = some s) (ht : (q :: p2).getLast? = some t)
+    (hshorter : polyLen N (p1 ++ q :: p2) < L) :
+    couldBeShorter lt3 poly route = some true :=
+  removal_flag_complete_same_side N hN lt3 poly route s t hh hl L horacle hR e he q hside
+    (lt_of_le_of_lt (through_point_lower_bound N hN s t q p1 p2 hs ht) hshorter)
+
+/-- **removal_estimate_repaired_min** (the proposed repair: `b = fabs(b); d = fabs(d);` instead of the
+    `(b + d) == 0` special case).  With the offsets taken in absolute value the chosen point minimises the detour
+    over the side for ALL positions of start and end (not both on the side's line) — so the repaired test is
+    complete without the same-side condition, and it is still a lower bound of every path through the side. -/
+theorem removal_estimate_repaired_min (N : K → K → K) (hN : IsNorm N) (a b c d mn mx : Rat) (hbd : 0 < |b| + |d|)
+    (hmm : mn ≤ mx) (x : Rat) (hx0 : mn ≤ x) (hx1 : x ≤ mx) :
+    detour N (a : K) (b : K) (c : K) (d : K) ((clamp mn mx ((|b| * c + a * |d|) / (|b| + |d|)) : Rat) : K) ≤
+      detour N (a : K) (b : K) (c : K) (d : K) (x : K) := by
+  have key := detour_model_min N hN a |b| c |d| mn mx (Or.inl ⟨abs_nonneg b, abs_nonneg d, hbd⟩) hmm x hx0 hx1
+  have e1 : ((|b| : Rat) : K) = |(b : K)| := by push_cast; rfl
+  have e2 : ((|d| : Rat) : K) = |(d : K)| := by push_cast; rfl
+  rw [e1, e2, detour_abs N hN, detour_abs N hN] at key
+  exact key
 
 /-- **estLess_sound.** The driver's three-valued comparison (rational enclosures of the square roots) never
     contradicts the exact one: for every Euclidean length function `len` on an ordered field (K = ℝ), if it
